@@ -158,6 +158,9 @@ pub const DIRECTED: &[(&str, usize, &str)] = &[
     // still being executed: the recursion of a scalar fold sits inside the scope, the global write after it
     ("global-stream-first-used-under-new", 2, r#"(seq (call "@P0" ("svc" "arr1") ["d"] arr) (seq (fold arr i (seq (new $s (seq (ap 1 $s) (next i))) (ap i $s))) (seq (canon "@P0" $s #c) (call "@P1" ("svc" "f2") [#c]))))"#),
     ("global-map-first-used-under-new", 2, r#"(seq (call "@P0" ("svc" "arr1") ["d"] arr) (seq (fold arr i (seq (new %m (seq (ap ("k" 1) %m) (next i))) (ap (i i) %m))) (seq (canon "@P0" %m #%c) (call "@P1" ("svc" "f2") [#%c]))))"#),
+    // one stream folded twice in a row; the second fold appends to the stream while it runs (nothing is appended
+    // between the end of the first fold and the start of the second)
+    ("fold-after-fold-recursive", 3, r#"(seq (seq (call "@P0" ("svc" "f1") [] $s) (fold $s i (seq (call "@P1" ("svc" "f2") [i]) (next i)))) (seq (fold $s j (seq (seq (call "@P1" ("svc" "f3") [j]) (xor (match j.$.k "a" (ap "more" $s)) (null))) (next j))) (seq (canon "@P1" $s #c) (call "@P2" ("svc" "f4") [#c]))))"#),
 ];
 
 pub const DIRECTED_BASE: u64 = 1_000_000_000;
